@@ -218,7 +218,65 @@ def apply_op(simu, state, op, k, cfg):
         simu.groups = None
 
 
+def job_dtype_mix(cfg):
+    """Groups whose element arrays have different dtypes (real / complex / integer-valued) in one slot: concrete values
+    through the unproxied code, compared entrywise with the scatter-add oracle (dtype handling is not a value question)."""
+    res = JobResult(cfg)
+    res.symbols = 1
+    rng = np.random.default_rng(harness.seed() + 3)
+    order = cfg["dtypes"]
+    label = f"{cfg['mesh']} dof_n={cfg['dof_n']} dtypes={order}"
+
+    def run_once():
+        simu, state = build(cfg)
+        if cfg.get("boundary"):
+            simu.groups = simu.mesh.Get_list_groupElem() + simu.mesh.Get_list_groupElem(simu.mesh.dim - 1)
+        groups = simu.groups if simu.groups is not None else simu.mesh.Get_list_groupElem()
+        dof_n = simu.Get_dof_n()
+        worst = 0.0
+        for rep in range(2):  # first assembly and one reusing the cached pattern
+            for g, dt in zip(groups, (order * 3)[: len(groups)]):
+                nd = g.nPe * dof_n
+
+                def mk(sh):
+                    a = rng.uniform(-1, 1, sh)
+                    if dt == "complex":
+                        return a + 1j * rng.uniform(-1, 1, sh)
+                    if dt == "float32":
+                        return a.astype(np.float32)
+                    if dt == "int":
+                        return np.round(a * 5).astype(int)
+                    return a
+                simu.mats[g.elemType] = (mk((g.Ne, nd, nd)), mk((g.Ne, nd, nd)), mk((g.Ne, nd, nd)), mk((g.Ne, nd, 1)))
+            simu.Need_Update()
+            pt = simu.problemType
+            mats = simu.Get_K_C_M_F(pt)
+            Ndof = simu.mesh.Nn * dof_n
+            orc = oracle(simu, Ndof)
+            for s_ in range(4):
+                A = np.asarray(mats[s_].todense())
+                ref = np.zeros(A.shape, dtype=complex)
+                for (r, cc), v in orc[s_].items():
+                    ref[r, cc] += v
+                worst = max(worst, float(np.abs(A - ref).max()))
+        return worst
+
+    import warnings
+
+    with warnings.catch_warnings():
+        warnings.simplefilter("ignore")
+        worst = run_once()
+    ok = worst <= 1e-12
+    res.record(f"{label} assembly = scatter-add", Outcome("held", how="ground-exact") if ok else Outcome("cex", env={}, how="ground"),
+               lambda env: (run_once() > 1e-12, {"max_abs_difference_assembly_vs_scatter_add": worst, "group_dtypes": order}), key=f"{label} heterogeneous dtypes",
+               sample={"config": label, "obligation": "assembled K, C, M, F == scatter-add when contributing groups have different dtypes (concrete values)"})
+    res.functions |= {"_Simu.__Assemble_csr", "_Simu.Assembly"}
+    return res
+
+
 def job(cfg):
+    if cfg.get("dtypes"):
+        return job_dtype_mix(cfg)
     res = JobResult(cfg)
     new_context()
     facade.install()
@@ -291,6 +349,10 @@ def main():
         configs.append({"mesh": mesh, "dof_n": dn, "history": [], "perm": perm})
     configs.append({"mesh": "mixed", "dof_n": 1, "history": ["A"], "complex": True})
     configs.append({"mesh": "tri4", "dof_n": 2, "history": ["B", "G"], "complex": True})
+    # heterogeneous dtypes across the groups of one slot (every order)
+    for order in (["float", "complex"], ["complex", "float"], ["int", "float"], ["int", "complex"]):
+        configs.append({"mesh": "mixed", "dof_n": 1, "history": [], "dtypes": order})
+        configs.append({"mesh": "tri4", "dof_n": 2, "history": [], "dtypes": order, "boundary": True})
     # all histories over the operation alphabet up to the bound (on the mixed mesh, dof_n = 1; sampled on others)
     alphabet = OPS
     hist = []
